@@ -84,6 +84,18 @@ impl TargetAddress {
             Self::Unknown => 0,
         }
     }
+    /// A host name every outgoing protocol can carry unchanged: 1..=253 bytes and
+    /// free of control, space and DEL bytes (delimiters of the HTTP and SOCKS4a encodings).
+    pub fn is_encodable(&self) -> bool {
+        match self {
+            Self::DomainPort(host, _) => {
+                !host.is_empty()
+                    && host.len() <= 253
+                    && !host.bytes().any(|b| b <= 0x20 || b == 0x7f)
+            }
+            _ => true,
+        }
+    }
     pub fn r#type(&self) -> &str {
         match self {
             Self::DomainPort(_, _) => "domain",
